@@ -197,7 +197,7 @@ func (w *world) gapDelivery(s, other *Node) {
 		variant = "skips-blocks-at-the-start"
 	}
 	var listed []*nom.AccountBlock // what the momentum lists and what is delivered with it
-	needs := 0                      // the receiver needs bs[:needs] in its pool for the listed blocks to sit on something
+	needs := 0                     // the receiver needs bs[:needs] in its pool for the listed blocks to sit on something
 	e := delivered{okM: false}
 	switch variant {
 	case "prefix(valid)":
